@@ -89,9 +89,17 @@ def relational_part(V, prop, relkind, tr, sd):
     emit = dict(MaxJ="= 4", MaxE="= 4", MaxN="= 3", MaxPV="= 3", Kinds="<- KindsAll", NKinds="<- NKindsTherm", TogJ="= FALSE")
     r, nets = c04.gen_nets(emit, simulate="num=%d" % (50 if tr == "quick" else 800), depth=20, seed=4000 + sd, timeout=1200)
     nets = [n for n in nets if n["sup"] and len(n["net"]["E"]) >= 2]
-    cap = 700 if tr == "quick" else 20000
+    cap = 600 if tr == "quick" else 20000
     if len(nets) > cap:
         nets = rnd.sample(nets, cap)
+    if relkind == "iso":
+        # nets dense in junction-pipe valves (three valves on three pipes): row order vs label order of the valve table matters
+        pv = dict(MaxJ="= 4", MaxE="= 3", MaxN="= 2", MaxPV="= 3", Kinds="<- KindsPipe", NKinds="<- NKindsCore", TogJ="= FALSE")
+        r2, n2 = c04.gen_nets(pv, simulate="num=%d" % (60 if tr == "quick" else 600), depth=16, seed=4100 + sd, timeout=1200)
+        n2 = [n for n in n2 if n["sup"] and sum(1 for e in n["net"]["E"] if e["et"] == "pi") >= 3]
+        if len(n2) > (250 if tr == "quick" else 5000):
+            n2 = rnd.sample(n2, 250 if tr == "quick" else 5000)
+        nets = nets + n2
     jobs = []
     for i, n in enumerate(nets):
         seq = (i % 2 == 0)
